@@ -293,7 +293,9 @@ func (c *c01Gen) expr(t c01Type, depth int) string {
 			n := g.Int(1, 3)
 			parts := make([]string, n)
 			for i := range parts {
-				parts[i] = c.expr(tInt, depth-1)
+				// string members: numerically equal members of different types (1, 1.0, True) are the
+				// open C17 finding set-mixed-numeric-keys, which is not what this property is about
+				parts[i] = c.expr(tStr, depth-1)
 			}
 			return "{" + strings.Join(parts, ", ") + "}"
 		case 6:
